@@ -109,9 +109,28 @@ CHECKS = {
         "origin advanced by -min(d). One block length (24).",
         "DESIGN.md section 3 C09",
     ),
+    "C10": (
+        "model_checking",
+        "explicit-state BFS over all chunk compositions of a real accumulator (states merged on bit-identical moments) + all merge trees",
+        "For each (mode, nchans, data class) the graph whose paths are all 2^(n-1) compositions of an n-sample stream (n=12/15) is explored "
+        "breadth-first on the real ChannelStats object; states are (position, moments bytes) and are merged only when bit-identical. Every "
+        "terminal state is compared with two-pass float64 (count/min/max exact and identical across all terminal states; mean/var/skew/"
+        "kurtosis within 50*eps32*n; constant channels exactly zero variance/skewness; nothing non-finite). All two-way merges at every "
+        "split (each side fed whole or sample-by-sample, both orders) and all three-way merges in both association orders are checked the same way.",
+        "Data values come from six classes (constant, 1-bit, 8-bit, wide float, huge outlier, constant channel among normal ones) drawn from "
+        "VERIF_SEED; the claim is over partitions/merges, not over all values. Single numba thread.",
+        "DESIGN.md section 3 C10",
+    ),
 }
 
 ENGINES = [
+    {
+        "name": "statespace",
+        "path": "vf/props/c02.py, vf/props/c10.py (BFS drivers) + vf/core/engine.py",
+        "serves_properties": [k for k, v in CHECKS.items() if v[0] == "model_checking"],
+        "kind_free_text": "explicit-state breadth-first search over operation histories of a real object; canonical state key from all "
+        "mutable fields; every transition executed on the implementation and compared with a reference model",
+    },
     {
         "name": "lattice",
         "path": "vf/core/engine.py",
@@ -137,7 +156,7 @@ def main() -> int:
                 "thorough_cmd": f"./check {pid} --tier thorough",
                 "evidence_file": f"/verif/evidence/{pid}.json",
                 "replay_cmd_template": f"./check {pid} --replay {{path}}",
-                "engine": "lattice",
+                "engine": "statespace" if cat == "model_checking" else "lattice",
                 "level_claimed": {"category": cat, "text": text, "design_ref": ref},
                 "level_note": note,
                 "technique": tech,
